@@ -29,6 +29,7 @@ def apply_unified(diff: str, original: str) -> str:
     pos = 0  # index into src
     i = 0
     seen_hunk = False
+    eof_blank = False
     while i < len(dl):
         line = dl[i]
         if not seen_hunk and (line.startswith("---") or line.startswith("+++")):
@@ -54,6 +55,14 @@ def apply_unified(diff: str, original: str) -> str:
         while i < len(dl) and (ca < na or cb < nb):
             h = dl[i]
             tag, body = (h[:1], h[1:]) if h else (" ", "")
+            if tag == " " and body == "" and pos == len(src) and original.endswith("\n"):
+                # the final newline shown as an empty last line (text.split("\n") artefact): covered by the
+                # "up to the presence of a final newline" tolerance of C03
+                ca += 1
+                cb += 1
+                eof_blank = True
+                i += 1
+                continue
             if tag == " ":
                 if pos >= len(src) or src[pos] != body:
                     raise PatchError(f"context mismatch at source line {pos + 1}: diff has {body[:50]!r}, file has {src[pos][:50] if pos < len(src) else None!r}")
